@@ -19,6 +19,14 @@ For every well-formed suite (`Suite.WF`: TLS 1.0–1.3; AEAD with prefix or XOR 
   prefix of the bytes written; `stream_complete` — once the reader has nothing left unread it has
   read exactly what was written; `read_progress` — while something is outstanding, a `Read` with a
   non-empty buffer returns at least one byte;
+* `keyupdate_runs_harmless` — the instance people trip over: **any number** `n` of consecutive
+  KeyUpdates from one side (with or without `update_requested`) followed by a write from that side:
+  the peer's next `Read` returns the beginning of that write, no error. The reader model carries
+  `retryCount` with the real rules — `afterDecrypt` resets it on every non-empty record that is not
+  an alert or CCS (so also on TLS 1.3 handshake records), `handleMsg` increments it per
+  post-handshake message and fails above `maxUselessRecords` = 32 — so this is a statement about
+  that counter: without the reset the premise `retry = 0` of `drainHand_ku` fails and neither this
+  theorem nor `stream_integrity` would go through;
 * `seq_in_lockstep` — whenever a direction is drained, writer and reader agree on key, secret and
   sequence number (also across any number of KeyUpdates); `seq_advances` — one per record, reset
   with a new epoch on KeyUpdate;
@@ -106,6 +114,67 @@ theorem read_progress (C : Crypto) (s : Suite) (hs : s.WF) (hC : C.Laws s.tagLen
   · intro hne
     obtain ⟨he, _, _, hp⟩ := dir_read C s hs hC _ _ _ _ _ _ n h2 h1
     exact ⟨hp hn hne, he⟩
+
+private theorem step_ku_ghost (C : Crypto) (σ : Sys) (side : Side) (req : Bool) :
+    (step C σ (.keyUpdate side req)).sentAB = σ.sentAB ∧ (step C σ (.keyUpdate side req)).recvAB = σ.recvAB ∧
+    (step C σ (.keyUpdate side req)).sentBA = σ.sentBA ∧ (step C σ (.keyUpdate side req)).recvBA = σ.recvBA := by
+  cases side with
+  | A => by_cases h : σ.a.outErr.isSome = true ∨ σ.a.p.s.vers ≠ v13 <;> simp [step, h]
+  | B => by_cases h : σ.b.outErr.isSome = true ∨ σ.b.p.s.vers ≠ v13 <;> simp [step, h]
+
+private theorem run_ku_write_ghost (C : Crypto) (s : Suite) (hs : s.WF) (hC : C.Laws s.tagLen s.macLen) (req : Bool) (d : Bytes)
+    (n : Nat) : ∀ σ : Sys, Inv C s σ →
+    ((run C σ (List.replicate n (.keyUpdate .A req) ++ [.write .A d])).sentAB = σ.sentAB ++ d ∧
+     (run C σ (List.replicate n (.keyUpdate .A req) ++ [.write .A d])).recvAB = σ.recvAB) ∧
+    ((run C σ (List.replicate n (.keyUpdate .B req) ++ [.write .B d])).sentBA = σ.sentBA ++ d ∧
+     (run C σ (List.replicate n (.keyUpdate .B req) ++ [.write .B d])).recvBA = σ.recvBA) := by
+  induction n with
+  | zero =>
+    intro σ h
+    have haoe : σ.a.outErr = none := h.1.choose_spec.2.2.2.2.2.2
+    have hboe : σ.b.outErr = none := h.2.1.choose_spec.2.2.2.2.2.2
+    simp [run, step, haoe, hboe]
+  | succ n ih =>
+    intro σ h
+    obtain ⟨ga1, ga2, _, _⟩ := step_ku_ghost C σ .A req
+    obtain ⟨_, _, gb3, gb4⟩ := step_ku_ghost C σ .B req
+    have iha := (ih _ (step_inv C s hs hC σ (.keyUpdate .A req) h)).1
+    have ihb := (ih _ (step_inv C s hs hC σ (.keyUpdate .B req) h)).2
+    simp only [List.replicate_succ, List.cons_append, run, List.foldl_cons] at iha ihb ⊢
+    rw [ga1, ga2] at iha
+    rw [gb3, gb4] at ihb
+    exact ⟨iha, ihb⟩
+
+/-- **keyupdate_runs_harmless**: from any reachable state in which B has read everything A wrote so
+far, let A send `n` KeyUpdates in a row — any `n`, with or without `update_requested` — and then
+write `d ≠ []`. Then no Read has failed, and B's next `Read` (any non-empty buffer) returns no
+error and a non-empty prefix of `d`: the run of KeyUpdates never exhausts `maxUselessRecords`,
+because every KeyUpdate *record* resets `retryCount` before its message increments it.
+(Symmetrically for B → A.) -/
+theorem keyupdate_runs_harmless (C : Crypto) (s : Suite) (hs : s.WF) (hC : C.Laws s.tagLen s.macLen) (σ : Sys)
+    (h : Inv C s σ) (n : Nat) (req : Bool) (d : Bytes) (hd : d ≠ []) (k : Nat) (hk : 0 < k) :
+    (σ.recvAB = σ.sentAB →
+      let σ' := run C σ (List.replicate n (.keyUpdate .A req) ++ [.write .A d])
+      σ'.ok = true ∧ (read C σ'.b k).err = none ∧ (read C σ'.b k).data ≠ [] ∧
+        ∃ rest, d = (read C σ'.b k).data ++ rest) ∧
+    (σ.recvBA = σ.sentBA →
+      let σ' := run C σ (List.replicate n (.keyUpdate .B req) ++ [.write .B d])
+      σ'.ok = true ∧ (read C σ'.a k).err = none ∧ (read C σ'.a k).data ≠ [] ∧
+        ∃ rest, d = (read C σ'.a k).data ++ rest) := by
+  obtain ⟨⟨gs, gr⟩, ⟨gs', gr'⟩⟩ := run_ku_write_ghost C s hs hC req d n σ h
+  constructor
+  · intro hdr
+    obtain ⟨h1, h2, hok⟩ := run_inv C s hs hC (List.replicate n (.keyUpdate .A req) ++ [.write .A d]) σ h
+    obtain ⟨he, ⟨items, _, hsent, _⟩, _, hp⟩ := dir_read C s hs hC _ _ _ _ _ _ k h1 h2
+    refine ⟨hok, he, hp hk (by rw [gs, gr, hdr]; intro hc; exact hd (by simpa using hc)), ?_⟩
+    rw [gs, gr, hdr, List.append_assoc, List.append_assoc] at hsent
+    exact ⟨_, List.append_cancel_left hsent⟩
+  · intro hdr
+    obtain ⟨h1, h2, hok⟩ := run_inv C s hs hC (List.replicate n (.keyUpdate .B req) ++ [.write .B d]) σ h
+    obtain ⟨he, ⟨items, _, hsent, _⟩, _, hp⟩ := dir_read C s hs hC _ _ _ _ _ _ k h2 h1
+    refine ⟨hok, he, hp hk (by rw [gs', gr', hdr]; intro hc; exact hd (by simpa using hc)), ?_⟩
+    rw [gs', gr', hdr, List.append_assoc, List.append_assoc] at hsent
+    exact ⟨_, List.append_cancel_left hsent⟩
 
 /-- **seq_in_lockstep**: in any reachable state, when a direction is drained (the reader has parsed
 every byte the writer sent) the reader's incoming half and the writer's outgoing half agree on key,
